@@ -307,3 +307,80 @@ pub fn run(id: &str, tier: Tier, seed: u64, replay: Option<&str>) -> i32 {
     }
     run_seq_campaign(c, tier, seed)
 }
+
+
+/// libFuzzer entry: bytes -> call sequence on a memory-only store (fast: no device, no drop cost),
+/// judged by the model, the snapshot, the counters, the timestamp constraints and the range oracle.
+pub fn fuzz_entry(data: &[u8]) -> Result<(), String> {
+    use crate::ops::*;
+    use arbitrary::Unstructured;
+    let mut u = Unstructured::new(data);
+    let ttl: bool = u.arbitrary().unwrap_or(true);
+    let limit: u8 = u.arbitrary().unwrap_or(0);
+    let cfg = Config { persistent: false, version: 3, cache: false, ttl, dev: DevSize::Normal, max_memory: if limit % 4 == 0 { Some(3000 + limit as usize * 40) } else { None }, plain_io: true, legacy_plain_meta: false, visible_cpus: 0 };
+    let keys: Vec<Vec<u8>> = vec![b"a".to_vec(), b"a\0".to_vec(), b"ab".to_vec(), b"b".to_vec(), b"\xff".to_vec(), b"user:1".to_vec()];
+    let mut ops = Vec::new();
+    while ops.len() < 80 {
+        let Ok(kind) = u.int_in_range(0u8..=17) else { break };
+        let k = KeyRef::Idx(u.arbitrary::<u16>().unwrap_or(0));
+        let k = match u.int_in_range(0u8..=30).unwrap_or(0) {
+            0 => KeyRef::Empty,
+            1 => KeyRef::Huge,
+            2 => KeyRef::AtRecoverable,
+            _ => k,
+        };
+        let ts = match u.int_in_range(0u8..=12).unwrap_or(0) {
+            0..=5 => TsSpec::Auto,
+            6 => TsSpec::Zero,
+            7 => TsSpec::Abs(u.int_in_range(1u64..=40).unwrap_or(1)),
+            8 => TsSpec::RelCur(u.int_in_range(-1i64..=2).unwrap_or(0)),
+            9 => TsSpec::RelNow(u.int_in_range(-1i64..=1).unwrap_or(0)),
+            10 => TsSpec::RelNow(1_000_000_000_000),
+            11 => TsSpec::MaxMinus1,
+            _ => TsSpec::Max,
+        };
+        let v = ValSpec {
+            len: match u.int_in_range(0u8..=9).unwrap_or(1) {
+                0 => LenClass::Empty,
+                1 => LenClass::One,
+                2 => LenClass::Eight,
+                9 => LenClass::Multi(2, u.arbitrary().unwrap_or(0)),
+                _ => LenClass::Small(u.int_in_range(2u16..=500).unwrap_or(9)),
+            },
+            kind: match u.int_in_range(0u8..=5).unwrap_or(0) {
+                0 => ValKind::Json,
+                1 => ValKind::Counter(u.arbitrary().unwrap_or(1)),
+                _ => ValKind::Stamp,
+            },
+        };
+        let ttl_s = [0u64, 1, 60, 3, u64::MAX, u64::MAX / NS][u.int_in_range(0usize..=5).unwrap_or(1)];
+        ops.push(match kind {
+            0 | 1 => Op::Insert { k, v, ts, bytes: kind == 1 },
+            2 => Op::InsertTtl { k, v, ttl: ttl_s, ts, bytes: u.arbitrary().unwrap_or(false) },
+            3 | 4 => Op::Get { k, bytes: kind == 4 },
+            5 => Op::Delete { k, ts },
+            6 => Op::Cas { k, expect: [Expect::Current, Expect::Stale, Expect::Random(3)][u.int_in_range(0usize..=2).unwrap_or(0)], v, ts, ttl: u.arbitrary::<bool>().unwrap_or(false).then_some(ttl_s) },
+            7 => Op::Incr { k, delta: [1i64, -1, i64::MAX, i64::MIN, 7][u.int_in_range(0usize..=4).unwrap_or(0)], ts, ttl: u.arbitrary::<bool>().unwrap_or(false).then_some(ttl_s) },
+            8 => Op::InsertIfAbsent { k, v },
+            9 => Op::JsonPatch { k, patch: [PatchKind::ReplaceN(5), PatchKind::AddField(1), PatchKind::RemoveField, PatchKind::FailingTest, PatchKind::Malformed, PatchKind::Grow(300)][u.int_in_range(0usize..=5).unwrap_or(0)], ts },
+            10 => Op::UpdateTtl { k, ttl: ttl_s },
+            11 => Op::Persist { k },
+            12 => Op::GetTtl { k },
+            13 => Op::Range { start: [BoundSpec::Empty, BoundSpec::Key(k), BoundSpec::KeyMinus(k), BoundSpec::KeyPlus(k)][u.int_in_range(0usize..=3).unwrap_or(0)], end: [BoundSpec::AllFf, BoundSpec::Key(k), BoundSpec::KeyPlus(k), BoundSpec::Empty][u.int_in_range(0usize..=3).unwrap_or(0)], limit: [0u32, 1, 3, u32::MAX][u.int_in_range(0usize..=3).unwrap_or(3)] },
+            14 => Op::Advance(Advance::Ns([1u64, NS - 1, NS, NS + 1, 61 * NS][u.int_in_range(0usize..=4).unwrap_or(0)])),
+            15 => Op::Advance(Advance::ToExpiry(k, u.int_in_range(-1i64..=1).unwrap_or(0))),
+            16 => Op::GetSize { k },
+            _ => Op::Contains { k },
+        });
+    }
+    if ops.is_empty() {
+        return Ok(());
+    }
+    let case = Case { cfg, keys, t0_offset: 3 * (data.len() as u64 % 1000), ops };
+    let flags = Flags { results: true, snapshot: true, readback: true, mem: true, ts: true, range: true, ..Flags::default() };
+    let out = seq::run_case(&case, &flags);
+    match out.failure {
+        Some(f) if f.oracle != "foreign" => Err(format!("[{}/{}] step {}: {} | case: {}", f.oracle, f.signature, f.step, f.msg, serde_json::to_string(&case).unwrap_or_default())),
+        _ => Ok(()),
+    }
+}
